@@ -1820,15 +1820,15 @@ def settle(ctx):
     log = getattr(ctx, '_c19_log', [])
     deadline = time.time() + 40                 # fresh processes cost time: only in runs that report something
 
-    def _reproduces(ctx, inp, key, _f=_reproduces):
+    def fresh_run(ctx, inp, key):
         if time.time() > deadline:
             ctx.stat('settle:out-of-time')
             return False
-        return _f(ctx, inp, key)
+        return _reproduces(ctx, inp, key)
 
     for v in ctx.violations:
         rec = hist.get(v['key'])
-        if rec is None or time.time() > deadline or _reproduces(ctx, v['input'], v['key']):
+        if rec is None or time.time() > deadline or fresh_run(ctx, v['input'], v['key']):
             continue
         cands = [c for c in (rec['live'], rec['smallest'], rec['first']) if c is not None]
         pos = rec['first'].get('pos')
@@ -1839,20 +1839,20 @@ def settle(ctx):
             return dict(rec['first'], input={'op': 'history', 'steps': steps})
         chosen = None
         for c in cands:
-            if c['input'] is not v['input'] and _reproduces(ctx, c['input'], v['key']):
+            if c['input'] is not v['input'] and fresh_run(ctx, c['input'], v['key']):
                 chosen = c
                 break
-        if chosen is None and pos and pos[0] > 0 and _reproduces(ctx, combined(0)['input'], v['key']):
+        if chosen is None and pos and pos[0] > 0 and fresh_run(ctx, combined(0)['input'], v['key']):
             lo, hi = 0, pos[0]              # the latest start from which the histories still lead to the failure
             while hi - lo > 1:
                 mid = (lo + hi) // 2
-                if _reproduces(ctx, combined(mid)['input'], v['key']):
+                if fresh_run(ctx, combined(mid)['input'], v['key']):
                     lo = mid
                 else:
                     hi = mid
             chosen = combined(lo)
             both = dict(rec['first'], input={'op': 'history', 'steps': log[lo] + log[pos[0]][:pos[1] + 1]})
-            if _reproduces(ctx, both['input'], v['key']):       # the history that starts it + the one that fails
+            if fresh_run(ctx, both['input'], v['key']):       # the history that starts it + the one that fails
                 chosen = both
         if chosen is None:
             ctx.stat('exemplar-not-reproducible-in-a-fresh-process')
